@@ -450,6 +450,40 @@ def productmd_modules():
     return [sys.modules[m] for m in sorted(sys.modules) if m == "productmd" or m.startswith("productmd.")]
 
 
+def module_state_guard(mods):
+    """every path starts from the state of a freshly imported library: module-level dicts / lists / sets of productmd (caches,
+    registries) are snapshotted once and restored in place at the start of each path.  What a call leaves behind there is thus
+    visible to later calls of the same path (a history the harness plays), never to another path or job."""
+    import copy
+    saved = []
+    for mod in mods:
+        for name, val in list(vars(mod).items()):
+            if name.startswith("__") or type(val) not in (dict, list, set):
+                continue
+            try:
+                saved.append((val, copy.deepcopy(val)))
+            except Exception:
+                continue
+
+    def restore():
+        for live, snap in saved:
+            try:
+                if live == snap:
+                    continue
+            except Exception:          # symbolic leftovers of the previous path cannot be compared natively
+                pass
+            fresh = copy.deepcopy(snap)
+            if isinstance(live, dict):
+                live.clear()
+                live.update(fresh)
+            elif isinstance(live, list):
+                live[:] = fresh
+            else:
+                live.clear()
+                live.update(fresh)
+    return restore
+
+
 def run_job(spec):
     """executed in a worker process"""
     t0 = time.time()
@@ -465,6 +499,7 @@ def run_job(spec):
         I = _interp.Interp([os.path.join(REPO, "productmd"), HARNESS_DIR], solver_timeout_ms=job.get("solver_timeout_ms", 120000))
         stubs.install(I)
         I.install_trampolines(productmd_modules())
+        I.path_hooks.append(module_state_guard(productmd_modules()))
         if job.get("budget_s"):
             I.deadline = time.time() + job["budget_s"]
         ctx = JobContext(prop, modname, job["harness"], job.get("params", {}), load_known(prop),
